@@ -1,6 +1,6 @@
 //! Templates: GeluFusion, ApproxGeluFusion, SiluFusion, SwishFusion.
 
-use crate::c01::{Built, Template, ax};
+use crate::c01::{Built, Template, ax, ax2};
 use crate::patterns::*;
 use crate::prog::Dt;
 
@@ -30,7 +30,7 @@ fn gelu(thorough: bool) -> Template {
     let names = ["sqrt2", "one", "half"];
     let axes = vec![
         ax("scaling form", 2, true),
-        ax("const shape", CS_N, true),
+        ax2("const shape", CS_N),
         ax("which const", 4, false),
         ax("const value", 4, true),
         ax("operand order", nm, true),
@@ -95,7 +95,7 @@ fn approx_gelu(thorough: bool) -> Template {
     let nm = masks.len();
     let names = ["half", "one", "sqrt(2/pi)", "three", "0.044715"];
     let axes = vec![
-        ax("const shape", CS_N, true),
+        ax2("const shape", CS_N),
         ax("which const", 6, false),
         ax("const value", 6, true),
         ax("operand order", nm, true),
@@ -193,7 +193,7 @@ fn swish(thorough: bool) -> Template {
     let data = data_shapes(thorough);
     let nd = data.len();
     let axes = vec![
-        ax("const shape", CS_N, true),
+        ax2("const shape", CS_N),
         ax("alpha", 3, true),
         ax("operand order", 4, true),
         ax("sigmoid operand", 2, true),
